@@ -229,6 +229,8 @@ pub struct Match {
     pub def: usize,
     pub rule: usize,
     pub args: Vec<Arg>,
+    /// byte offsets (in the trimmed line) of the characters matched by literal pattern parts
+    pub exact_pos: Vec<usize>,
 }
 
 pub struct Matcher<'a> {
@@ -298,7 +300,8 @@ impl<'a> Matcher<'a> {
     }
 
     /// all ways `rule` matches s[pos..limit] from pattern part `at`; returns (args, end position)
-    fn match_from(&mut self, def: usize, rule: usize, at: usize, s: &str, pos: usize, limit: usize, consume_all: bool, args: Vec<Arg>) -> Vec<(Vec<Arg>, usize)> {
+    fn match_from(&mut self, def: usize, rule: usize, at: usize, s: &str, pos: usize, limit: usize, consume_all: bool, args: Vec<Arg>, ex: Vec<usize>) -> Vec<(Vec<Arg>, usize, Vec<usize>)> {
+        let mut ex = ex;
         let r = &self.defs[def].rules[rule];
         let mut pos = pos;
         let mut lax = false;
@@ -316,6 +319,7 @@ impl<'a> Matcher<'a> {
                     if !ch.eq_ignore_ascii_case(c) {
                         return vec![];
                     }
+                    ex.push(u);
                     pos = u + ch.len_utf8();
                 }
                 PPart::Ws => {
@@ -348,7 +352,7 @@ impl<'a> Matcher<'a> {
                                         let end = pos + p.end_offset();
                                         let mut a = args.clone();
                                         a.push(Arg::Expr { e, start: start.min(end), end });
-                                        let sub = self.match_from(def, rule, idx + 1, s, end, limit, consume_all, a);
+                                        let sub = self.match_from(def, rule, idx + 1, s, end, limit, consume_all, a, ex.clone());
                                         if lax && !sub.is_empty() {
                                             self.lax_match_seen = true;
                                         }
@@ -364,11 +368,13 @@ impl<'a> Matcher<'a> {
                                     continue;
                                 };
                                 for sr in 0..self.defs[sd].rules.len() {
-                                    let nested = self.match_from(sd, sr, 0, s, pos, region, false, vec![]);
-                                    for (nargs, nend) in nested {
+                                    let nested = self.match_from(sd, sr, 0, s, pos, region, false, vec![], vec![]);
+                                    for (nargs, nend, nex) in nested {
+                                        let mut ex2 = ex.clone();
+                                        ex2.extend(nex);
                                         let mut a = args.clone();
                                         a.push(Arg::Nested { def: sd, rule: sr, args: nargs, start: start.min(nend), end: nend });
-                                        let sub = self.match_from(def, rule, idx + 1, s, nend, limit, consume_all, a);
+                                        let sub = self.match_from(def, rule, idx + 1, s, nend, limit, consume_all, a, ex2);
                                         if lax && !sub.is_empty() {
                                             self.lax_match_seen = true;
                                         }
@@ -388,7 +394,7 @@ impl<'a> Matcher<'a> {
         if lax {
             self.lax_match_seen = true;
         }
-        vec![(args, pos)]
+        vec![(args, pos, ex)]
     }
 
     fn exact_count(&self, m_def: usize, m_rule: usize, args: &[Arg]) -> usize {
@@ -410,8 +416,8 @@ impl<'a> Matcher<'a> {
                 continue;
             }
             for r in 0..self.defs[d].rules.len() {
-                for (args, _) in self.match_from(d, r, 0, line, 0, line.len(), true, vec![]) {
-                    let m = Match { def: d, rule: r, args };
+                for (args, _, ex) in self.match_from(d, r, 0, line, 0, line.len(), true, vec![], vec![]) {
+                    let m = Match { def: d, rule: r, args, exact_pos: ex };
                     if !all.iter().any(|x| same_match(x, &m)) {
                         all.push(m);
                     }
